@@ -52,7 +52,15 @@ def walkRedirect (c : TCase) (which : String) : RdSt :=
     | "resp" =>
       (match t.res with
        | "resp" :: _ :: st' :: _ :: hs =>
-         if st' == "none" then s1 else { s1 with lastStatus := st'.toNat?, lastLoc := lastLocationOf (hdrsOfWords hs), hadResp := true }
+         if st' == "none" then s1 else
+         -- the Location is read off the bytes the server sent (grammar of C05), not off what the implementation
+         -- reports of them; for a head the grammar does not complete (partial-redirect fallback) the report is used
+         let fromWire : Option (List Hdr) :=
+           match tryParseResponse 128 (unhex (t.op.getD 1 "-")) with
+           | .ok (some (_, r)) => some r.fields
+           | _ => none
+         let loc := match fromWire with | some fs => lastLocationOf fs | none => lastLocationOf (hdrsOfWords hs)
+         { s1 with lastStatus := st'.toNat?, lastLoc := loc, hadResp := true }
        | _ => s1)
     | "status" =>
       (match t.res, s.lastStatus with
